@@ -107,47 +107,140 @@ Theorem C08_predicate_keys_never_api_names : forall name a, ~ In (mkkey name a) 
 Proof. exact mkkey_not_api. Qed.
 Print Assumptions C08_predicate_keys_never_api_names.
 
-(* ---- loading.  last_def ss k = the (last) definition the script gives to key k. *)
+(* ---- loading.  A script is Python: its statements bind keys to NEW function objects (`def`,
+   lambda), to constants (not callable), to None, delete keys of the copy, assign a key to itself,
+   or raise.  last_eff ss k = the last thing the script does to key k (None: nothing; Some None:
+   deleted in the copy; Some (Some v): bound to v); last_def ss k = the (last) object it binds k to.
+   ctx_val c k = what k is bound to (None / an object / a chain closure); ctx_get c k = the objects
+   a call finds there. *)
 
-(* complete description of a successful load, for every key k *)
+(* complete description of a load that returns, for every key k and every kind of statement.
+   (`!=` of the merge loop = same_value: a function made by the script differs from everything;
+   None equals "not bound"; a constant equals the same constant bound directly.) *)
+Theorem C08_load_val : forall c sc ow c' k,
+  load c sc ow = Some c' ->
+  ctx_val c' k =
+  match last_eff (s_stmts sc) k with
+  | Some (Some v) =>
+      if same_value (ctx_val c k) v then ctx_val c k
+      else if ow then Some v
+      else Some (VChain (old_members c k ++ members v))
+  | _ => ctx_val c k
+  end.
+Proof. exact load_val. Qed.
+Print Assumptions C08_load_val.
+
 Theorem C08_load_get : forall c sc ow c' k,
   load c sc ow = Some c' ->
   ctx_get c' k =
-  match last_def (s_stmts sc) k with
-  | None => ctx_get c k
-  | Some d => if ow then Some [d]
-              else Some (match ctx_get c k with Some old => old ++ [d] | None => [d] end)
+  match last_eff (s_stmts sc) k with
+  | Some (Some v) =>
+      if same_value (ctx_val c k) v then ctx_get c k
+      else if ow then Some (members v)
+      else Some (old_members c k ++ members v)
+  | _ => ctx_get c k
   end.
 Proof. exact load_get. Qed.
 Print Assumptions C08_load_get.
 
+(* the case of the property text: the script DEFINES k (a function d): replaced / appended *)
+Theorem C08_load_get_def : forall c sc ow c' k d,
+  load c sc ow = Some c' -> last_def (s_stmts sc) k = Some d -> d_const d = None ->
+  ctx_get c' k = if ow then Some [d] else Some (old_members c k ++ [d]).
+Proof. exact load_get_def. Qed.
+Print Assumptions C08_load_get_def.
+
 (* "Loading a script with overwrite replaces exactly the definitions it contains" *)
 Theorem C08_load_overwrite_exact : forall c sc c' k d,
-  load c sc true = Some c' -> last_def (s_stmts sc) k = Some d -> ctx_get c' k = Some [d].
+  load c sc true = Some c' -> last_def (s_stmts sc) k = Some d -> d_const d = None -> ctx_get c' k = Some [d].
 Proof. exact load_overwrite_exact. Qed.
 Print Assumptions C08_load_overwrite_exact.
 
 (* "loading without overwrite appends its definitions after the existing ones for the same
-   name/arity in load order" - for any number of loads *)
+   name/arity in load order" - for any number of loads (scripts of definitions) *)
 Theorem C08_load_chain_order : forall scs c c' k,
+  forallb plain_script scs = true ->
   load_all c scs = Some c' ->
   chain_of c' k = chain_of c k ++
     flat_map (fun sc => match last_def (s_stmts sc) k with Some d => [d] | None => [] end) scs.
 Proof. exact load_chain_order. Qed.
 Print Assumptions C08_load_chain_order.
 
-(* "definitions it does not mention are unaffected" *)
+(* "definitions it does not mention are unaffected" (bound_keys = every key a statement names) *)
 Theorem C08_load_frame : forall c sc ow c' k,
-  load c sc ow = Some c' -> ~ In k (bound_keys (s_stmts sc)) -> ctx_get c' k = ctx_get c k.
+  load c sc ow = Some c' -> ~ In k (bound_keys (s_stmts sc)) -> ctx_val c' k = ctx_val c k.
 Proof. exact load_frame. Qed.
 Print Assumptions C08_load_frame.
 
+(* ... nor are keys the script deletes (`del k` acts on the copy only) *)
+Theorem C08_load_del_unaffected : forall c sc ow c' k,
+  load c sc ow = Some c' -> last_eff (s_stmts sc) k = Some None -> ctx_val c' k = ctx_val c k.
+Proof. exact load_del_unaffected. Qed.
+Print Assumptions C08_load_del_unaffected.
+
 (* "a load that raises leaves the engine unchanged": text that does not compile, or any
-   statement raising while the script runs - whatever it defined before - gives no new context *)
+   statement raising while the script runs - whatever it bound before - gives no new context *)
 Theorem C08_load_fail_atomic : forall c sc ow,
   s_broken sc = true \/ In SFail (s_stmts sc) -> load c sc ow = None.
 Proof. exact load_fail_atomic. Qed.
 Print Assumptions C08_load_fail_atomic.
+
+(* exactly when a load returns: the text compiles and every statement runs (exec_ok: no raising
+   statement; `del k` / `k = k` only of keys bound at that point) - nothing else can make it raise,
+   in particular not WHAT the script binds (the merge does not look at the values) *)
+Theorem C08_load_ok_iff : forall c sc ow,
+  (exists c', load c sc ow = Some c') <-> (s_broken sc = false /\ exec_ok (s_stmts sc) (bound_in c) = true).
+Proof. exact load_ok_iff. Qed.
+Print Assumptions C08_load_ok_iff.
+
+(* the load OPERATION in any state of a history, any script: it raises and the state is the same
+   state, or it returns and every key is as C08_load_val says - never something in between *)
+Theorem C08_load_op_atomic : forall fuel sc ow st,
+  (load (e_ctx (st_eng st)) sc ow = None /\ do_op fuel (OLoad sc ow) st = (otag "raised" [], st)) \/
+  (exists c', load (e_ctx (st_eng st)) sc ow = Some c' /\
+     do_op fuel (OLoad sc ow) st = (otag "ok" [], mkState (mkEngine (e_db (st_eng st)) c') (st_susp st)) /\
+     forall k, ctx_val c' k =
+       match last_eff (s_stmts sc) k with
+       | Some (Some v) =>
+           if same_value (ctx_val (e_ctx (st_eng st)) k) v then ctx_val (e_ctx (st_eng st)) k
+           else if ow then Some v
+           else Some (VChain (old_members (e_ctx (st_eng st)) k ++ members v))
+       | _ => ctx_val (e_ctx (st_eng st)) k
+       end).
+Proof. exact load_op_atomic. Qed.
+Print Assumptions C08_load_op_atomic.
+
+Theorem C08_raised_load_resolves_as_before : forall fuel sc ow st,
+  fst (do_op fuel (OLoad sc ow) st) = otag "raised" [] -> snd (do_op fuel (OLoad sc ow) st) = st.
+Proof. exact raised_load_resolves_as_before. Qed.
+Print Assumptions C08_raised_load_resolves_as_before.
+
+(* what the code does with `name_N = None` (the model says exactly that; the property text is
+   silent): under overwrite the key stays bound, to None - nothing to call and the variadic
+   registration is not consulted; for a key that is not bound nothing is bound *)
+Theorem C08_load_none_hides_variadic : forall c sc c' name n,
+  load c sc true = Some c' -> last_eff (s_stmts sc) (mkkey name (AFix n)) = Some (Some VNone) ->
+  ctx_get c (mkkey name (AFix n)) <> None -> ctx_get c (mkkey name (AFix n)) <> Some [] ->
+  resolve c' name n = Some [].
+Proof. exact load_none_hides_variadic. Qed.
+Print Assumptions C08_load_none_hides_variadic.
+
+Theorem C08_load_none_unbound : forall c sc ow c' k,
+  load c sc ow = Some c' -> last_eff (s_stmts sc) k = Some (Some VNone) -> ctx_val c k = None ->
+  ctx_val c' k = None.
+Proof. exact load_none_unbound. Qed.
+Print Assumptions C08_load_none_unbound.
+
+(* a module constant under a predicate key, alone or inside a chain (what a combining load makes
+   of `name_N = 4`): every call that resolves to it raises, after the facts and before any
+   definition answers - it never silently answers something else *)
+Theorem C08_noncallable_member_raises : forall f name args nx s e ds d z,
+  reserved name = false ->
+  resolve (e_ctx e) name (length args) = Some ds -> In d ds -> d_const d = Some z ->
+  drain e (query_gen (S f) name args nx s e) =
+  (map (prune nx) (fact_answers (db_get (e_db e) (name, length args)) args s), Raise).
+Proof. exact noncallable_member_raises. Qed.
+Print Assumptions C08_noncallable_member_raises.
 
 (* register_function assigns exactly one key (no chaining) *)
 Theorem C08_register_get : forall c name st d k,
@@ -162,8 +255,11 @@ Print Assumptions C08_register_get.
    mentions, a combining load appends to them, unmentioned keys are unaffected, assert_fact
    appends/prepends one fact, clear empties both, queries change nothing.  After any history
    from the empty engine the engine's dictionaries ARE these maps (and no key holds an empty
-   chain), and a call uses the spec's definitions for exactly its arity, else the variadic ones. *)
+   chain), and a call uses the spec's definitions for exactly its arity, else the variadic ones.
+   plain_op: what is registered / loaded are functions and raising statements (the vocabulary of
+   the property text; scripts binding constants / None / deleting keys: C08_load_val above). *)
 Theorem C08_history_refines_spec : forall fuel ops,
+  forallb plain_op ops = true ->
   abs_ok (st_eng (exec_ops fuel ops (mkState empty_engine []))) (spec_run ops spec_init).
 Proof. exact history_refines_spec. Qed.
 Print Assumptions C08_history_refines_spec.
@@ -344,6 +440,37 @@ Example C08_nonvacuous :
     drain e (query_gen 3 (d "p") [0] 1 [] e) =
     ([[(0, d "fact")]; [(0, d "x")]; [(0, d "x2")]; [(0, d "y")]; [(0, d "z")]; [(0, d "z2")]], Norm).
 Proof. eexists. split; [vm_compute; reflexivity | vm_compute; reflexivity]. Qed.
+
+(* non-vacuity for scripts that are not only definitions.  The context has color/1 (old).  A script
+   binds color_1 (new), shape_1, the constant MAX_SIZE = <constant 4>, size_1 - loaded WITHOUT
+   overwrite it returns and everything is merged (color/1 = old, new; shape/1; size/1; MAX_SIZE a
+   chain around the constant); the same script with a raising statement in the middle raises and
+   the load has no new context; a key bound to a constant makes the call raise after the facts. *)
+Example C08_nondef_globals_nonvacuous :
+  let df (a : string) := mkDef (Some 1) [mkClause 0 [GUnify 0 (d a)]] in
+  let k (nm : string) := mkkey (d nm) (AFix 1) in
+  let c0 : ctx := [(k "color", VObj (df "blue"))] in
+  let ss := [SDef (k "color") (df "red"); SDef (k "shape") (df "square"); SDef (d "MAX_SIZE") (mkConst 4);
+             SDef (k "size") (df "four"); SDef (k "lim") (mkConst 7)] in
+  (exists c', load c0 (mkScript false ss) false = Some c' /\
+     ctx_val c' (k "color") = Some (VChain [df "blue"; df "red"]) /\
+     ctx_val c' (k "shape") = Some (VChain [df "square"]) /\
+     ctx_val c' (d "MAX_SIZE") = Some (VChain [mkConst 4]) /\
+     ctx_val c' (k "size") = Some (VChain [df "four"]) /\
+     let e := mkEngine (assert_fact [] (d "lim") [d "fact"] true) c' in
+     drain e (query_gen 3 (d "color") [0] 1 [] e) = ([[(0, d "blue")]; [(0, d "red")]], Norm) /\
+     drain e (query_gen 3 (d "lim") [0] 1 [] e) = ([[(0, d "fact")]], Raise)) /\
+  load c0 (mkScript false (firstn 2 ss ++ SFail :: skipn 2 ss)) false = None /\
+  load c0 (mkScript false (ss ++ [SDel (k "nosuch")])) false = None /\
+  (exists c', load c0 (mkScript false (ss ++ [SDel (k "color"); SNone (k "shape")])) true = Some c' /\
+     ctx_val c' (k "color") = Some (VObj (df "blue")) /\ ctx_val c' (k "shape") = None).
+Proof.
+  cbv zeta. split; [|split; [|split]].
+  - eexists. split; [vm_compute; reflexivity|]. repeat split; vm_compute; reflexivity.
+  - vm_compute; reflexivity.
+  - vm_compute; reflexivity.
+  - eexists. split; [vm_compute; reflexivity|]. split; vm_compute; reflexivity.
+Qed.
 
 (* non-vacuity of call-time resolution: fact p(f), definition p(old); started (answers f); p(old) is
    replaced by p(new); resumed: old, although a call made now answers new.  And of "nothing is fixed
